@@ -162,6 +162,8 @@ def h07_e2e(S, backend="mem"):
     pname, value = vals[pi]
     prio = [PrioritiesT.LOW, PrioritiesT.MEDIUM, PrioritiesT.HIGH][S.pick("priority", 3)]
     bucket = S.flag("args_through_bucket")
+    # (args=None with an explicit args_id means "use the bucket that is already there" - a different feature)
+    explicit_args_id = bucket and value is not None and S.flag("bucket_id_chosen_by_the_caller")
     deferred = S.flag("deferred")
     has_ttl = S.flag("has_ttl")
     has_by = S.flag("has_deferred_by")
@@ -193,6 +195,7 @@ def h07_e2e(S, backend="mem"):
                   retries=S.int("retries", 0, None), timeout=S.timedelta("timeout", SEC, HUNDRED_Y),
                   ttl=S.timedelta("ttl", SEC, HUNDRED_Y) if has_ttl else None,
                   args=value, args_ttl=real_timedelta(hours=1) if bucket else None,
+                  **({"args_id": "args-of-id-1_A"} if bucket and explicit_args_id else {}),
                   result_id="res-9", result_ttl=S.timedelta("result_ttl", SEC, HUNDRED_Y) if store else None,
                   _connection=conn)
         sent = await job.enqueue()
@@ -239,6 +242,37 @@ def h07_e2e(S, backend="mem"):
         S.cover("requeued-with-another-payload")
         S.check("requeued-payload-is-what-the-next-consumer-receives", again is not None and again[1] == want,
                 info=f"{backend}: requeued {want!r}, next consumer received {None if again is None else again[1]!r}")
+
+
+def h07_rabbit_priority(S):
+    """RabbitMQ: any priority a RoutingKey accepts and AMQP can carry (0..255) comes back as it was sent, also after a requeue."""
+    from fakes import amqp as fa
+    from repid.data._key import RoutingKey
+    import repid.data._parameters as P
+
+    p = [0, 1, 9, 10, 42, 255][S.pick("priority", 6)]
+    requeued = S.flag("requeued_once")
+    out = {}
+
+    async def main(loop):
+        br, ch, srv = fa.mk_broker()
+        await br.queue_declare("default")
+        key = RoutingKey(topic="job", queue="default", id_="m1", priority=p)
+        params = P.Parameters(timestamp=P.datetime.now())
+        await br.enqueue(key, "p", params)
+        cons = br.get_consumer("default", ["job"])
+        await cons.start()
+        got = await try_consume(cons, timeout=1)
+        if got is not None and requeued:
+            await br.requeue(got[0], "p2", got[2])
+            got = await try_consume(cons, timeout=1)
+        out["got"] = got
+
+    run_async(main, clock=PinnedClock(T0))
+    S.cover("priority-round-trip")
+    S.check("message-received", out["got"] is not None)
+    if out["got"] is not None:
+        S.check("key.priority", out["got"][0].priority == p, info=f"sent with priority {p}, received with {out['got'][0].priority}")
 
 
 def h07_waiting_consumer(S):
@@ -300,6 +334,10 @@ HARNESSES = [
     Harness(name="L-FP", scenario=None, kind="custom", custom=h07_lemma, params={"replay": lambda v: {"reproduced": False, "failed": []}},
             bounds={"N": "[0, 100 julian years] µs", "model": "IEEE-754 round-to-nearest half-ulp bounds: 2^-22 s on N/1e6 (< 2^32 s), 2^-34 on the fractional product (< 2^20)"},
             covers=["lemma"], stubs=["bit-precise QF_BVFP encoding did not finish in 15 min in either solver (design phase); the claim rests on the error model"]),
+    Harness(name="H07-rabbit-priority", scenario=h07_rabbit_priority,
+            bounds={"priority": "0, 1, 9, 10, 42, 255 (the AMQP priority property is one byte; RoutingKey accepts any int >= 0)", "path": "enqueue -> consume, optionally requeue -> consume"},
+            functions=["connections/rabbitmq/message_broker.py:RabbitMessageBroker.enqueue", "connections/rabbitmq/consumer.py:_RabbitConsumer.on_new_message"],
+            covers=["priority-round-trip"], stubs=["fake AMQP channel"]),
     Harness(name="H07-codec-fp", scenario=None, kind="custom", custom=c07_fp.run, params={"replay": c07_fp.rep},
             bounds={"N": "[0, 100 julian years] µs per duration field (8 fields of Parameters, ResultProperties, DelayProperties, ArgsBucket, ResultBucket)",
                     "time cap": "60 s (quick) / 300 s (thorough) per bit-precise query; none is needed while every field has the lemma's shape"},
